@@ -1,7 +1,10 @@
 /- Aho-Corasick construction driver (correspondence tie of Model/AcBuild.lean):
    `<id> atoms=<sidx:hex:bt,…|->`  (the atoms in insertion order, as hook yr_verif_on_atom logged them)
    → `<id> act=<hex32,…> acm=<hex32,…> acp=<sidx:bt:next,…|->`   — the format harness/h_scan.c `actab=1` prints for the
-     real automaton — or `<id> ASSERT` when the model hits the table-size assertion. -/
+     real automaton — or `<id> ASSERT` when the model hits the table-size assertion.
+   With `buf=<hex> cands=<sidx@off/bt,…|->` (the real candidate sequence, hook yr_verif_on_candidate) two more tokens:
+   `seq=<same|diff>` (Model.AcScan.scan over the BUILT tables = the real sequence, order included) and
+   `spec=<same|diff>` (the specification sequence `expectedScan atoms buf` of Thm/AcBuild.build_scan_exact = the real one). -/
 import YaraModel.Model.AcBuild
 import Driver.Ac
 namespace Driver.AcBuild
@@ -30,7 +33,13 @@ def handle (line : String) : String :=
         let acm := joinWith "," (T.m.toList.map hexU32)
         let acp := if T.pool.isEmpty then "-" else
           joinWith "," (T.pool.toList.map fun (e : Nat × Nat × Nat) => s!"{e.1}:{e.2.1}:{e.2.2}")
-        s!"{id} act={act} acm={acm} acp={acp}"
+        let extra := match (Driver.Ac.kv rest "buf").bind Driver.unhex, (Driver.Ac.kv rest "cands").bind Driver.Ac.parseCands with
+          | some buf, some cands =>
+            let sc := scan T buf
+            let sp := Build.expectedScan atoms buf
+            s!" seq={if sc == cands then "same" else "diff"} spec={if sp == cands then "same" else "diff"}"
+          | _, _ => ""
+        s!"{id} act={act} acm={acm} acp={acp}{extra}"
       | none => s!"{id} ASSERT"
     | none => s!"{id} BADCASE"
 
